@@ -305,6 +305,7 @@ pub fn model_case(case: &Value, mode: &str, rep: &mut Report) {
         "leaky" => with_bp_small!(b, p, leaky_case(case, mode, rep)),
         "diag" => with_bp_diag!(b, p, diag_case(case, mode, rep)),
         "floatclass" => with_bp_small!(b, p, floatclass_case(case, mode, rep)),
+        "uniformbig" => with_bp!(b, p, uniformbig_case(case, mode, rep)),
         k => panic!("unknown model case kind {}", k),
     }
 }
@@ -619,4 +620,33 @@ pub fn floatclass_case<Pr, const P: usize>(case: &Value, mode: &str, rep: &mut R
 where Pr: VInt + Into<usize> + AsPrimitive<usize> + Into<f64> + AsPrimitive<f32> + AsPrimitive<f64>, usize: AsPrimitive<Pr>, f64: AsPrimitive<Pr>, f32: AsPrimitive<Pr> {
     floatclass_f::<Pr, f64, P>(case, mode, rep, "f64");
     floatclass_f::<Pr, f32, P>(case, mode, rep, "f32");
+}
+
+// ---------------------------------------------------------------------------------------------
+// kind "uniformbig": UniformModel at real probability widths (sampled ranges; symbols beyond 2^32)
+// ---------------------------------------------------------------------------------------------
+pub fn uniformbig_case<Pr, const P: usize>(case: &Value, _mode: &str, rep: &mut Report)
+where Pr: VInt + AsPrimitive<usize>, usize: AsPrimitive<Pr> {
+    let b = Pr::nbits();
+    for c in case["cases"].as_array().unwrap() {
+        let n = c["n"].as_u64().unwrap() as usize; let ppb = c["ppb"].as_u64().unwrap(); let last = c["last"].as_u64().unwrap();
+        let name = format!("UniformModel::<u{}, {}>::new({})", b, P, n);
+        let r = guarded(|| {
+            let m = UniformModel::<Pr, P>::new(n);
+            let mut out = vec![];
+            let row = |s: usize| -> (u64, u64) { (s as u64 * ppb, if s + 1 == n { last } else { ppb }) };
+            let mut syms: Vec<usize> = vec![0, 1, n / 2, n.saturating_sub(2), n - 1]; syms.sort(); syms.dedup();
+            for &s in syms.iter().filter(|s| **s < n) {
+                match m.left_cumulative_and_probability(s) { Some((c, p)) => if (c.to_u128() as u64, nz::<Pr>(p)) != row(s) { out.push(format!("{}: symbol {} -> ({}, {}), spec {:?}", name, s, c.to_u128(), nz::<Pr>(p), row(s))); }, None => out.push(format!("{}: symbol {} of the support reported impossible", name, s)) }
+                for q in [row(s).0, row(s).0 + row(s).1 - 1] { let (ds, dc, dp) = m.quantile_function(Pr::from_u128_trunc(q as u128)); if (ds, dc.to_u128() as u64, nz::<Pr>(dp)) != (s, row(s).0, row(s).1) { out.push(format!("{}: quantile_function({}) = ({}, {}, {}), spec ({}, {:?})", name, q, ds, dc.to_u128(), nz::<Pr>(dp), s, row(s))); } }
+            }
+            // out-of-support symbols, in particular values that alias an in-support symbol after narrowing to Probability
+            let mut outside: Vec<usize> = vec![n, n + 1, usize::MAX, usize::MAX - 1, 1usize << 40, (1usize << 63) + 1];
+            for k in [0usize, 1, n / 2, n - 1] { for sh in [b as usize, b as usize + 1, 32, 33, 48] { if sh < 64 { outside.push((1usize << sh) + k); outside.push((3usize << sh.min(61)) + k); } } }
+            for s in outside.into_iter().filter(|s| *s >= n) { if let Some((c, p)) = m.left_cumulative_and_probability(s) { out.push(format!("{}: symbol {} outside the support got ({}, {}) instead of None", name, s, c.to_u128(), nz::<Pr>(p))); } }
+            out
+        });
+        rep.checks += 1; rep.class("uniform_big");
+        match r { Ok(out) => for d in out.into_iter().take(3) { rep.mismatch(case, d); }, Err(m) => rep.mismatch(case, format!("{}: panic: {}", name, m)) }
+    }
 }
